@@ -50,7 +50,7 @@ fn store(give: &CoordinateOrderDescriptor) -> ParsedParameters {
 }
 const PROBE: [f64; 4] = [3.0, 5.0, 7.0, 11.0];
 
-//@h {"id":"C11.K.adapt.combine","props":["C11"],"tier":"quick","kind":"complete","timeout":600,"text":"combine_descriptors for all 24x24 axis orders x 16x16 sign patterns (element magnitudes: distinct powers of two): post[i] = position in `from` of the axis `to` declares at i; mult[i] = from.mult[post[i]] / to.mult[i]; noop iff identity"}
+//@h {"id":"C11.K.adapt.combine","props":["C11"],"tier":"quick","kind":"complete","timeout":1800,"text":"combine_descriptors for all 24x24 axis orders x 16x16 sign patterns (element magnitudes: distinct powers of two): post[i] = position in `from` of the axis `to` declares at i; mult[i] = from.mult[post[i]] / to.mult[i]; noop iff identity"}
 #[kani::proof]
 #[kani::unwind(6)]
 fn c11_adapt_combine() {
@@ -64,7 +64,7 @@ fn c11_adapt_combine() {
     assert!(!give.noop, "C11.K.adapt.combine.noop: a scaling pair is never a no-op");
 }
 
-//@h {"id":"C11.K.adapt.fwd","props":["C11","C10","C09"],"tier":"quick","kind":"complete","timeout":900,"text":"adapt fwd on the probe tuple for all axis orders x signs: out[i] = in[j] * from.mult[j] / to.mult[i] exactly; returns n; (parameter accessors replaced by their contract)"}
+//@h {"id":"C11.K.adapt.fwd","props":["C11","C10","C09"],"tier":"quick","kind":"complete","timeout":1800,"text":"adapt fwd on the probe tuple for all axis orders x signs: out[i] = in[j] * from.mult[j] / to.mult[i] exactly; returns n; (parameter accessors replaced by their contract)"}
 #[kani::proof]
 #[kani::unwind(9)]
 #[kani::stub(crate::op::ParsedParameters::boolean, stub_boolean)]
@@ -82,7 +82,7 @@ fn c11_adapt_fwd() {
     assert!(data[0][i] == PROBE[j] * from.mult[j] / to.mult[i], "C11.K.adapt.fwd.map: re-ordered, sign-flipped and scaled as the two descriptors declare");
 }
 
-//@h {"id":"C11.K.adapt.inv","props":["C11","C01","C09"],"tier":"quick","kind":"complete","timeout":900,"text":"adapt inv is the exact reverse mapping: inv(fwd(x)) == x and fwd(inv(x)) == x bitwise on the probe tuple for all axis orders x signs (power-of-two factors); `adapt to=X` == `adapt inv from=X` by symmetry of the obligation"}
+//@h {"id":"C11.K.adapt.inv","props":["C11","C01","C09"],"tier":"quick","kind":"complete","timeout":1800,"text":"adapt inv is the exact reverse mapping: inv(fwd(x)) == x and fwd(inv(x)) == x bitwise on the probe tuple for all axis orders x signs (power-of-two factors); `adapt to=X` == `adapt inv from=X` by symmetry of the obligation"}
 #[kani::proof]
 #[kani::unwind(9)]
 #[kani::stub(crate::op::ParsedParameters::boolean, stub_boolean)]
@@ -106,7 +106,7 @@ fn c11_adapt_inv() {
     assert!(r4 == 1 && same4(&data[0], &Coor4D(PROBE)), "C01.K.adapt.roundtrip: forward after inverse is the identity, bit for bit");
 }
 
-//@h {"id":"C11.K.adapt.noop","props":["C11","C13","C10"],"tier":"quick","kind":"complete","timeout":600,"text":"a descriptor pair that combines to the identity is flagged noop, and a noop adapt writes nothing in either direction (all f64 bits)"}
+//@h {"id":"C11.K.adapt.noop","props":["C11","C13","C10"],"tier":"quick","kind":"complete","timeout":1800,"text":"a descriptor pair that combines to the identity is flagged noop, and a noop adapt writes nothing in either direction (all f64 bits)"}
 #[kani::proof]
 #[kani::unwind(34)]
 #[kani::stub(crate::op::ParsedParameters::boolean, stub_boolean)]
